@@ -459,6 +459,12 @@ class SArr(core._ArrLike):
         vals = [-v for v in self.flat()]
         return SArr(Buf(vals), self.shape, dtype=self.dtype)
 
+    def __invert__(self):
+        if self.dtype != "b":
+            raise Unsupported("~ on a non-boolean array")
+        vals = [(not v) if isinstance(v, bool) else ~v for v in self.flat()]
+        return SArr(Buf(vals), self.shape, dtype="b")
+
     def __iadd__(self, o):
         return self._inplace(o, _add)
 
@@ -808,6 +814,33 @@ class _NoneArr(SArr):
 
     def __init__(self):
         SArr.__init__(self, Buf([None]), (), dtype="O")
+
+
+def ascontiguousarray(x, dtype=None):
+    """numpy returns the argument itself when it already is a C-contiguous array of the requested dtype"""
+    if isinstance(x, SArr):
+        dt = _dtype_of(dtype) if dtype is not None else x.dtype
+        contiguous = x.strides == SArr(x.buf, x.shape).strides or x.ndim <= 1 and (not x.strides or x.strides[0] == 1)
+        if dt == x.dtype and contiguous:
+            return x
+        return x.astype(dtype if dtype is not None else float) if dt != x.dtype else x.copy()
+    if _is_scalar(x):
+        return SArr(Buf([sym_float_like(x, dtype)]), (1,), dtype=_dtype_of(dtype) if dtype is not None else _infer_dtype([x]))
+    a = SArr.from_list(x)
+    return a.astype(dtype) if dtype is not None else a
+
+
+def sym_float_like(x, dtype):
+    if dtype is not None and _dtype_of(dtype) == "f" and isinstance(x, int) and not isinstance(x, bool):
+        return float(x)
+    return x
+
+
+def isclose(a, b, rtol=1e-05, atol=1e-08):
+    def f(u, v):
+        d = abs(u - v)
+        return d <= atol + rtol * abs(v)
+    return _ew2(a, b, f)
 
 
 def array(x, dtype=None):
